@@ -15,13 +15,18 @@ import (
 // https://github.com/openconfig/reference/blob/master/rpc/gnmi/gnmi-path-conventions.md#wildcards-in-paths
 func MatchWildcardRegexp(query string, exact bool) *regexp.Regexp {
 	const legalChars = `a-zA-Z0-9_:,\-\.`
-	regexpQuery := strings.ReplaceAll(query, `[`, `\[`)
-	regexpQuery = strings.ReplaceAll(regexpQuery, `*`, `[`+legalChars+`]*?`) // Not greedy
-	regexpQuery = strings.ReplaceAll(regexpQuery, `...`, `.*`)               // greedy
+	// The query is request text: quote it, then give the (quoted) wildcards their meaning
+	regexpQuery := regexp.QuoteMeta(query)
+	regexpQuery = strings.ReplaceAll(regexpQuery, `\.\.\.`, `.*`)             // greedy
+	regexpQuery = strings.ReplaceAll(regexpQuery, `\*`, `[`+legalChars+`]*?`) // Not greedy
 	if exact {
 		return regexp.MustCompile(fmt.Sprintf("^%s$", regexpQuery))
 	}
-	return regexp.MustCompile(fmt.Sprintf("^%s", regexpQuery))
+	if strings.HasSuffix(query, "/") {
+		return regexp.MustCompile(fmt.Sprintf("^%s", regexpQuery))
+	}
+	// Match the addressed node and what lies beneath it, not siblings that share a textual prefix
+	return regexp.MustCompile(fmt.Sprintf(`^%s(/|\[|$)`, regexpQuery))
 }
 
 // MatchWildcardChNameRegexp creates a Regular Expression from a wild-carded path
